@@ -337,6 +337,46 @@ pub open spec fn usage_small(du: UsageMap) -> bool {
         }
 //@end
 
+// =====================================================================================================
+// C09 (D10): installing next-period transitions re-derives the schedule's maintenance violation
+// =====================================================================================================
+//@item solution/src/transition.rs Transition::maintenance_violation
+//@retname r
+//@sig
+    ensures r == self.total_maintenance_violation,
+//@end
+//@item solution/src/schedule.rs Schedule::next_day_transition_of
+//@retname r
+//@sig
+    requires self.next_period_transitions@.contains_key(vehicle_type),
+    ensures *r == self.next_period_transitions@[vehicle_type],
+//@end
+//@item solution/src/schedule.rs Schedule::set_next_day_transitions
+//@retname r
+//@sig
+    requires
+        // C12 for each installed transition: its violation is a sum of `max(0, ..)` terms, hence not negative;
+        // the i64 total fits (at most 2^17 vehicles, see sched_guard)
+        forall|vt: VehicleTypeIdx| transitions@.contains_key(vt) ==> 0 <= (#[trigger] transitions@[vt]).total_maintenance_violation,
+        sp_transitions_violation(transitions@) <= i64::MAX,
+    ensures
+        r.maintenance_violation == sp_transitions_violation(transitions@), // @obl C09.set_next_day_transitions.violation_is_sum_of_installed_transitions
+        r.next_period_transitions == transitions, // @obl C16.set_next_day_transitions.installs_exactly_the_given_transitions
+        r.vehicles == self.vehicles, r.tours == self.tours, r.train_formations == self.train_formations,
+        r.depot_usage == self.depot_usage, r.dummy_tours == self.dummy_tours, r.vehicle_ids_grouped_and_sorted == self.vehicle_ids_grouped_and_sorted,
+        r.dummy_ids_sorted == self.dummy_ids_sorted, r.vehicle_counter == self.vehicle_counter,
+        r.unserved_passengers == self.unserved_passengers, r.costs == self.costs, r.network == self.network, // @obl C16.set_next_day_transitions.everything_else_unchanged
+//@closure-params? 0
+    &Transition
+//@closure? 0
+    -> (c: MaintenanceCounter) ensures c == transition.total_maintenance_violation
+//@first
+        proof {
+            axiom_key_seq(&transitions);
+            lemma_transitions_violation(transitions@, transitions.key_seq());
+        }
+//@end
+
 } // mod tr
 } // verus!
 fn main() {}
